@@ -147,6 +147,7 @@ func runC08(c *Ctx) {
 	c08Evict(c, deleters)
 	c08Heap(c)
 	c08Round2(c)
+	c08FixedTtlKey(c)
 }
 
 func isParamAnyFunc(f *core.Func, v *types.Var) bool {
